@@ -24,7 +24,7 @@ _SCAN_RULE = ('stack.ScanSnapshot under a scripted io.Reader (chunk schedule inc
 
 PROPS = {
     'C04': {
-        'extra_props': ['C00_pipeline'],
+        'extra_props': ['C00_pipeline', 'C05b'],
         'ops': [('aggregate', 1500, 40000), ('aggx', 600, 44440, (), 'exact')],
         'corr': ['corr:ids', 'corr:panic'],
         'prop': ['C04'],
@@ -34,7 +34,7 @@ PROPS = {
         'assumptions': ['Go sort.Ints / sort.SliceStable are stable sorts (modelled by insertion sort)'],
     },
     'C05': {
-        'extra_props': ['C00_pipeline'],
+        'extra_props': ['C00_pipeline', 'C05b'],
         'ops': [('aggregate', 1500, 40000), ('sigops', 800, 40000), ('aggx', 600, 44440, (), 'exact')],
         'corr': ['corr:ids', 'corr:panic', 'corr:sig-similar', 'corr:sig-equal'],
         'prop': ['C05', 'C06:aggregate'],
@@ -44,7 +44,7 @@ PROPS = {
         'assumptions': ['snapshots are well-formed (wf_goroutines): non-pointers carry no pseudo-name, too-large arguments are not pointers'],
     },
     'C12': {
-        'extra_props': ['C00_pipeline'],
+        'extra_props': ['C00_pipeline', 'C05b'],
         'ops': [('aggregate', 1500, 40000), ('sigops', 800, 40000), ('aggx', 600, 44440, (), 'exact')],
         'corr': ['corr:sig', 'corr:panic', 'corr:sig-merge'],
         'prop': ['C12'],
@@ -53,7 +53,7 @@ PROPS = {
         'rule': _AGG_RULE + '; the merged signature of every bucket is compared field by field with the model and checked against its members by the extracted c12_ok',
     },
     'C13': {
-        'extra_props': ['C00_pipeline'],
+        'extra_props': ['C00_pipeline', 'C13b'],
         'ops': [('aggregate', 1000, 30000), ('less3', 5000, 200000), ('sigops', 1500, 60000)],
         'corr': ['corr:order', 'corr:less', 'corr:panic', 'corr:sig-less'],
         'prop': ['C13'],
@@ -77,7 +77,7 @@ PROPS = {
                 'scanned with NameArguments on and off; non-trivial = at least one argument named; distinct by input hash',
     },
     'C01': {
-        'extra_props': ['C00_pipeline', 'C00_regex'],
+        'extra_props': ['C00_pipeline', 'C00_regex', 'C00_resume'],
         'regex_check': True,
         'ops': [('scan', 500, 30000, ('-mix', 'c01')), ('step', 200, 10000), ('regex', 3000, 60000)],
         'corr': ['corr:snap', 'corr:err', 'corr:panic', 'corr:rest', 'corr:fwd', 'corr:step-trace', 'corr:step-goroutines', 'corr:regex', 'corr:matcher'],
@@ -90,7 +90,7 @@ PROPS = {
                 'file lines x indented blank lines; three-way comparison: implementation snapshot = model snapshot = the snapshot the AST denotes; non-trivial = a snapshot was returned',
     },
     'C08': {
-        'extra_props': ['C00_regex'],
+        'extra_props': ['C00_regex', 'C00_resume'],
         'regex_check': True,
         'ops': [('scan', 400, 20000, ('-mix', 'c08')), ('step', 200, 10000), ('regex', 1500, 30000)],
         'corr': ['corr:snap', 'corr:err', 'corr:panic', 'corr:rest', 'corr:fwd', 'corr:step-trace', 'corr:step-goroutines', 'corr:regex', 'corr:matcher'],
@@ -102,7 +102,7 @@ PROPS = {
                 'the error must be nil, the text before must be forwarded and the text after handed back',
     },
     'C02': {
-        'extra_props': ['C02b'],
+        'extra_props': ['C02b', 'C00_resume'],
         'ops': [('scan', 400, 20000, ('-mix', 'c02')), ('scan', 250, 10000, ('-mix', 'junk')), ('scan', 150, 5000, ('-mix', 'c08')), ('scan', 300, 20000, ('-mix', 'c03')), ('pp', 40, 2000)],
         'corr': ['corr:fwd', 'corr:rest', 'corr:suffix', 'corr:writes', 'corr:panic', 'corr:err', 'corr:pp:plain', 'corr:pp-exit:plain'],
         'prop': ['C02'],
@@ -142,7 +142,7 @@ PROPS = {
                 'implementation trace alone: every complete forwarded line within the delivered bytes is already written, no Read after the line that ends the dump',
     },
     'C07': {
-        'extra_props': ['C07c', 'C00_regex'],
+        'extra_props': ['C07c', 'C00_regex', 'C07d', 'C00_resume'],
         'regex_check': True,
         'ops': [('scanseq', 200, 10000), ('scan', 200, 5000, ('-mix', 'c02')), ('pppipe', 10, 120), ('scan', 2200, 25259, ('-mix', 'kinds'), 'exact'), ('step', 600, 30000), ('pp', 40, 2000), ('regex', 1500, 30000)],
         'corr': ['corr:regex', 'corr:matcher', 'corr:seq', 'corr:seqrest', 'corr:panic', 'corr:snap', 'corr:rest', 'corr:pp:pipe', 'corr:pp-exit:pipe', 'corr:pp:plain', 'corr:pp-exit:plain', 'corr:step-trace', 'corr:step-sessions', 'corr:step-goroutines'],
@@ -155,6 +155,7 @@ PROPS = {
                 'step (hook VerifStepper): scanningState.scan driven line by line under the ScanSnapshot/resume protocol, the state, consumed flag and error of EVERY line compared with the model scan (whose control is proved equal to the reference automaton Spec/RefGrammar.ref_step, C07c)',
     },
     'C10': {
+        'extra_props': ['C10b'],
         'ops': [('cut', 8, 40, (), 'exact')],
         'corr': ['corr:snap', 'corr:fwd', 'corr:err', 'corr:rest', 'corr:panic'],
         'prop': ['C10'],
@@ -190,7 +191,7 @@ PROPS = {
                 'is compared byte for byte with the extracted page model (Model/HtmlPage.v), whose template literals (Model/HtmlTpl.v) are generated from stack/goroutines.tpl and checked to be current on every run',
     },
     'C18': {
-        'extra_props': ['C00_regex'],
+        'extra_props': ['C00_regex', 'C18b'],
         'regex_check': True,
         'ops': [('guess', 150, 5000), ('regex', 1500, 30000)],
         'corr': ['corr:guess', 'corr:panic', 'corr:regex', 'corr:matcher'],
@@ -214,7 +215,7 @@ PROPS = {
                 'must equal the one the tagged model predicts; thorough adds a go run -race driver',
     },
     'C19': {
-        'extra_props': ['C19b'],
+        'extra_props': ['C19b', 'C19c'],
         'ops': [('augment', 250, 10000), ('progs', 10, 150), ('ast', 60, 600)],
         'corr': ['corr:augment', 'corr:panic', 'corr:ast-select', 'corr:ast-types', 'corr:ast-match', 'corr:ast-wf'],
         'prop': ['C19'],
@@ -228,6 +229,7 @@ PROPS = {
                 'a line inside a function queried with its traceback name must be augmented',
     },
     'C20': {
+        'extra_props': ['C20b'],
         'race_driver': True,
         'ops': [('handler', 150, 5000), ('live', 25, 600), ('scan', 150, 5000, ('-mix', 'c01'))],
         'corr': ['corr:handler', 'corr:snap', 'corr:err', 'corr:panic'],
